@@ -56,8 +56,14 @@ let handle = function
     hex_of_bytes (Framing.emit_fixed (n_of_int 11) lit_h (bytes_of_hex data))
   | ["emit_lit_comp"; k; data] ->
     let kk = n_of_int (int_of_string k) in
-    hex_of_bytes (Framing.emit_partial (n_of_int 8) kk (bytes_of_hex "00")
-                    (Framing.emit_partial (n_of_int 11) kk lit_h (bytes_of_hex data)))
+    let inner = Framing.emit_partial (n_of_int 11) kk lit_h (bytes_of_hex data) in
+    let spec = Framing.emit_partial (n_of_int 8) kk (bytes_of_hex "00") inner in
+    (* CompressedDataPartialGenerator is the same staged producer with tag 8 and the algorithm octet as header,
+       over the (uncompressed: algorithm 0) stream of the literal writer *)
+    let req (i : BinNums.coq_N) : BinNums.coq_N = n_of_int (1 + ((int_of_n i) * 104729) mod 1531) in
+    let (mi, oci) = PartialWriter.pw_run (n_of_int 11) kk lit_h req (bytes_of_hex data) in
+    let (mo, oc) = PartialWriter.pw_run (n_of_int 8) kk (bytes_of_hex "00") req mi in
+    if oci = Emitter.EClean && oc = Emitter.EClean && mo = spec then hex_of_bytes spec else "MODEL-SPLIT emit_lit_comp machine /= specification"
   | ["emit_lit_comp_fixed"; k; data] ->
     (* the compressed packet is always partial (its length is not known in
        advance); the literal packet inside is fixed when the source length is known *)
